@@ -37,15 +37,21 @@ Init == /\ kind \in {"regular", "random", "identity"}
 (* The relation every sub-tick must satisfy.  A *run* of `rep` equal values `out` inside one cycle  *)
 (* is judged at once (rep = 1 is a single sub-tick); the trace specification reuses this operator   *)
 (* for run-length-encoded logs of very long cycles.                                                  *)
+\* A rate function may return a negative value for a cycle (a staged profile dipping below zero): nothing can be
+\* handed out then - every sub-tick of that cycle is 0 - and nothing of it is carried into later cycles (each cycle
+\* is judged against its own rate only). The identity cases pass the value through unchanged.
 OutAllowed(k, rate, emittedBefore, remBefore, loBefore, hiBefore, out, rep) ==
-    /\ out >= 0 /\ rep >= 1 /\ rep <= remBefore
-    /\ emittedBefore + out * rep <= rate
-    /\ (remBefore = rep) => (emittedBefore + out * rep = rate)    \* flushed on the last sub-tick
-    /\ (k = "regular") =>
-          LET l2 == IF loBefore = -1 THEN out ELSE Min(loBefore, out)
-              h2 == Max(hiBefore, out)
-          IN h2 - l2 <= 1                                        \* even
+    /\ rep >= 1 /\ rep <= remBefore
     /\ (k = "identity") => (out = rate)
+    /\ (k # "identity") =>
+          /\ out >= 0
+          /\ IF rate < 0 THEN out = 0
+             ELSE /\ emittedBefore + out * rep <= rate
+                  /\ (remBefore = rep) => (emittedBefore + out * rep = rate)    \* flushed on the last sub-tick
+                  /\ (k = "regular") =>
+                        LET l2 == IF loBefore = -1 THEN out ELSE Min(loBefore, out)
+                            h2 == Max(hiBefore, out)
+                        IN h2 - l2 <= 1                                        \* even
 
 \* State change of `rep` consecutive calls handing out `out` each; newRate is the value of the
 \* underlying rate function if it gets evaluated by the first of these calls.
@@ -81,8 +87,10 @@ Spec == Init /\ [][Next]_vars
 -----------------------------------------------------------------------------
 (* Properties (C12) *)
 EvalOncePerCycle == evals = cycles
-CycleConserved   == (rem = 0 /\ cycles > 0) => emitted = cycleRate
-NeverOver        == emitted <= cycleRate
+\* what a finished cycle must have handed out: its rate - nothing when the rate was negative (see OutAllowed)
+Due(r) == IF kind # "identity" /\ r < 0 THEN 0 ELSE r
+CycleConserved   == (rem = 0 /\ cycles > 0) => emitted = Due(cycleRate)
+NeverOver        == emitted <= Due(cycleRate)
 NonNegative      == lo >= -1 /\ hi >= 0
 RegularEven      == (kind = "regular" /\ lo # -1) => hi - lo <= 1
 IdentityPass     == (kind = "identity" /\ cycles > 0) => (emitted = cycleRate /\ rem = 0)
